@@ -6,8 +6,8 @@ notes={
  'C16-cutprefix-helpers':'first run alarmed (strings.CutPrefix havocked): specs added, now clean',
  'C06-dispatch-action-helper':'first run alarmed (range loop rewritten as counting loop: idx unknown, no bound): engine corrected, now clean',
  'C01-onrecv-helpers':'first run alarmed in C03 (declared swallow moved into a helper): swallows now cover inlined helpers, now clean',
- 'C17-forwarder-validate-helpers':'STILL ALARMS: loops with loop contracts moved into new helper functions; reported as stale-loop-contract, proof must be redone',
- 'C15-validate-helpers':'STILL ALARMS: loops with loop contracts moved into new helper functions; reported as stale-loop-contract, proof must be redone',
+ 'C17-forwarder-validate-helpers':'first run alarmed (loops with loop contracts moved into new helper functions): loop-contract adoption added to the engine, now clean',
+ 'C15-validate-helpers':'first run alarmed (loops with loop contracts moved into new helper functions): loop-contract adoption added to the engine, now clean',
 }
 for d in sorted(glob.glob('/verif/benign/*/')):
     name=os.path.basename(d.rstrip('/'))
